@@ -2,7 +2,7 @@
 From Coq Require Import Lia.
 From AV Require Import Base.Bytes Base.Outcome Hash.HashModel Spec.SpecOps Xml.TablesOk Tree.Heap Tree.Ops Tree.Script Tree.Inv.
 From AV Require Import Tree.NoPanic Tree.NoPanicProofsBase Tree.NoPanicProofsOps1 Tree.NoPanicProofsDepth.
-From AV Require Import Tree.NoPanicProofsClosed Tree.NoPanicProofsOps2 Tree.NoPanicProofsOps3 Tree.NoPanicProofsOps4.
+From AV Require Import Tree.NoPanicProofsClosed Tree.NoPanicProofsOps2 Tree.NoPanicProofsOps3 Tree.NoPanicProofsOps4 Tree.NoPanicProofsOps5.
 Open Scope string_scope.
 Open Scope list_scope.
 Open Scope N_scope.
@@ -33,6 +33,8 @@ Proof.
   - apply runs_welem. apply (ENV np_create_sub_element_at); tauto.
   - apply runs_welem. apply (ENV np_create_named); tauto.
   - apply runs_welem. apply (ENV np_create_named_at); tauto.
+  - apply runs_wunit. apply (ENV np_remove); tauto.
+  - apply runs_wunit. apply (ENV np_remove_kind); tauto.
   - apply runs_wunit. apply (ENV np_set_item_name); tauto.
   - apply runs_wunit. apply (ENV np_set_character_data); try tauto.
     intros b ->. discriminate COV.
@@ -47,7 +49,9 @@ Proof.
   - apply runs_welem. apply (ENV np_get_or_create_named); tauto.
   - eapply runs_then; [apply (ENV np_new_model)|intros; apply runs_ret].
   - eapply runs_then; [apply (ENV np_create_file); tauto|intros; apply runs_ret].
+  - apply runs_wunit. apply (ENV np_remove_file); tauto.
   - apply runs_wunit. apply (ENV np_add_to_file); tauto.
+  - apply runs_wunit. apply (ENV np_remove_from_file); tauto.
 Qed.
 
 Theorem no_panic_covered' w o : covered_op o = true -> PanicFree w -> op_wf w o ->
